@@ -9,7 +9,7 @@ import time
 from . import assemble, verus
 
 VERIF = assemble.VERIF
-CACHE = os.path.join(VERIF, ".cache")
+CACHE = os.environ.get("VERIF_CACHE") or os.path.join(VERIF, ".cache")
 GEN = os.path.join(CACHE, "gen")
 
 TRUST_PATTERNS = [
